@@ -3,6 +3,7 @@ package soyhtml
 import (
 	"math"
 	"math/rand"
+	"sort"
 	"strings"
 
 	"github.com/robfig/soy/data"
@@ -62,9 +63,15 @@ func funcLength(v []data.Value) data.Value {
 }
 
 func funcKeys(v []data.Value) data.Value {
-	var keys data.List
+	var names []string
 	for k := range v[0].(data.Map) {
-		keys = append(keys, data.String(k))
+		names = append(names, k)
+	}
+	// map iteration order is unspecified: return the keys in sorted order.
+	sort.Strings(names)
+	var keys = make(data.List, len(names))
+	for i, k := range names {
+		keys[i] = data.String(k)
 	}
 	return keys
 }
